@@ -1,4 +1,197 @@
-(* Case runner and spec checker (T3) for C15 — stub. *)
-From WI Require Import Lib.Base Lib.Info Model.Dn.
-Definition run_C15 (op : bytes) (input : arg) : arg := AL [].
-Definition check_C15 (op : bytes) (input impl : arg) : arg := AL [].
+(* Case runner and spec checker (T3) for C15.
+
+   ops (see harness/c15.go):
+     escape  input (#s)                         impl #escaped
+     dn      input (rdns)                       impl (0 #text) | (2)       FromRDNSequence
+     rawdn   input (#dn parsed name)            impl (0 #text) | (2)       FromRawDN
+     cert    input (acc (#dn parsed name) (#dn parsed name))
+                                                 impl (0 (#subject #issuer)) | (1)   file.Inspect
+   rdns   = ((atv ...) ...)   atv = ((arc ...) value)
+   value  = (0 #s) string | (1 #be8) int64, two's complement | (2) nil | (4 #printed #marshal) other
+   parsed = (0 rdns) | (1): what the library decoding used by FromRawDN returned (oracle)
+   name   = (0 ((((arc ...) kind #payload) ...) ...)) | (1): the name as decoded by the harness
+            itself: kind 0 = a string type, payload its characters in UTF-8;
+            kind 1 = any other type, payload the DER of the value. *)
+From WI Require Import Lib.Base Lib.Info Lib.Utf8 Lib.Rfc4514 Model.Dn.
+Open Scope N_scope.
+
+(* ---------- decoding the case input ---------- *)
+Definition z_of_be8 (b : bytes) : Z :=
+  let n := be_to_N b in
+  if n <? 2 ^ 63 then Z.of_N n else (Z.of_N n - 2 ^ 64)%Z.
+Definition value_of_arg (a : arg) : govalue :=
+  match arg_Z (arg_nth 0 a) with
+  | 0%Z => GStr (arg_bytes (arg_nth 1 a))
+  | 1%Z => GInt (z_of_be8 (arg_bytes (arg_nth 1 a)))
+  | 2%Z => GNil
+  | _ => GOther (arg_bytes (arg_nth 1 a)) (arg_bytes (arg_nth 2 a))
+  end.
+Definition oid_of_arg (a : arg) : oid := map arg_N (arg_list a).
+Definition atv_of_arg (a : arg) : atv := (oid_of_arg (arg_nth 0 a), value_of_arg (arg_nth 1 a)).
+Definition rdns_of_arg (a : arg) : list (list atv) :=
+  map (fun r => map atv_of_arg (arg_list r)) (arg_list a).
+Definition parsed_of_arg (a : arg) : option (list (list atv)) :=
+  match arg_Z (arg_nth 0 a) with
+  | 0%Z => Some (rdns_of_arg (arg_nth 1 a))
+  | _ => None
+  end.
+
+Definition obs_text (b : bytes) : arg := AL [AZ 0; AB b].
+Definition raw_of (a : arg) : bytes := from_raw_dn (arg_bytes (arg_nth 0 a)) (parsed_of_arg (arg_nth 1 a)).
+
+Definition run_C15 (op : bytes) (input : arg) : arg :=
+  if bytes_eqb op (bs "escape") then AB (escape_gen (v_nul current) (arg_bytes (arg_nth 0 input)))
+  else if bytes_eqb op (bs "dn") then obs_text (render_dn (rdns_of_arg (arg_nth 0 input)))
+  else if bytes_eqb op (bs "rawdn") then obs_text (raw_of input)
+  else if bytes_eqb op (bs "cert") then
+    if arg_bool (arg_nth 0 input)
+    then AL [AZ 0; AL [AB (raw_of (arg_nth 1 input)); AB (raw_of (arg_nth 2 input))]]
+    else AL [AZ 1]
+  else AL [].
+
+(* ================= the spec checker =================
+   The text the implementation printed is read by the RFC 4514 reader; the result must be
+   the name that went in: same RDNs (most specific first), same number of components in
+   each, each type identifying the OID, each value equal.  Nothing here uses Model/Dn.v
+   except the regenerated name table, which plays the role of the READER's registry of
+   short names: a short name is acceptable only if it names exactly one OID. *)
+
+(* short names fixed by RFC 4514 section 3 *)
+Definition rfc4514_names : list (bytes * list N) := [
+  (bs "CN", [2; 5; 4; 3]); (bs "L", [2; 5; 4; 7]); (bs "ST", [2; 5; 4; 8]);
+  (bs "O", [2; 5; 4; 10]); (bs "OU", [2; 5; 4; 11]); (bs "C", [2; 5; 4; 6]);
+  (bs "STREET", [2; 5; 4; 9]);
+  (bs "DC", [0; 9; 2342; 19200300; 100; 1; 25]); (bs "UID", [0; 9; 2342; 19200300; 100; 1; 1])
+].
+Definition spec_dotted (o : list N) : bytes := join [46] (map dec_of_N o).
+
+Definition type_ok (t : bytes) (o : list N) : bool :=
+  if bytes_eqb t (spec_dotted o) then Nat.leb 2 (length o)
+  else
+    is_descr t
+    && forallb (fun kn => bytes_eqb (fst kn) o) (filter (fun kn => bytes_eqb (snd kn) t) x500_names)
+    && nonempty (filter (fun kn => bytes_eqb (snd kn) t) x500_names)
+    && forallb (fun no => negb (bytes_eqb (fst no) t) || bytes_eqb (snd no) o) rfc4514_names.
+
+(* expectations: None = this value cannot be checked (not a valid UTF-8 string, nil) *)
+Inductive expect := EStr (s : bytes) | EDer (d : bytes) | EInt (z : Z) | ESkip.
+
+Definition signed_be (b : bytes) : Z :=
+  match b with
+  | [] => 0%Z
+  | h :: _ => let n := Z.of_N (be_to_N b) in
+              if h <? 128 then n else (n - 2 ^ (8 * Z.of_nat (length b)))%Z
+  end.
+
+Definition value_ok (e : expect) (v : pvalue) : bool :=
+  match e, v with
+  | ESkip, _ => true
+  | EStr s, PStr p => bytes_eqb s p
+  | EDer d, PHex h => bytes_eqb d h
+  | EInt z, PHex (2 :: l :: c) => (N.of_nat (length c) =? l) && nonempty c && Z.eqb (signed_be c) z
+  | _, _ => false
+  end.
+
+Fixpoint atvs_ok (want : list (list N * expect)) (got : list patv) : bool :=
+  match want, got with
+  | [], [] => true
+  | (o, e) :: w, (t, v) :: g => type_ok t o && value_ok e v && atvs_ok w g
+  | _, _ => false
+  end.
+Fixpoint rdns_ok (want : list (list (list N * expect))) (got : list (list patv)) : bool :=
+  match want, got with
+  | [], [] => true
+  | w :: ws, g :: gs => atvs_ok w g && rdns_ok ws gs
+  | _, _ => false
+  end.
+
+Definition has_skip (want : list (list (list N * expect))) : bool :=
+  existsb (existsb (fun oe => match snd oe with ESkip => true | _ => false end)) want.
+
+(* verdict for one printed name *)
+Definition judge (want_cert_order : list (list (list N * expect))) (text : bytes) : arg :=
+  let want := filter nonempty (rev want_cert_order) in
+  match parse_rdns text with
+  | None =>
+      if has_skip want then AL []
+      else AS "the printed name is not a valid RFC 4514 string (it cannot be read back)"
+  | Some got =>
+      if rdns_ok want got then AL []
+      else if Nat.eqb (length (concat got)) (length (concat want)) then
+        (if atvs_ok (concat want) (concat got)
+         then AS "the printed name reads back with different RDN boundaries (multi-valued RDN not joined by '+')"
+         else AS "the printed name reads back as different attribute types or values")
+      else AS "the printed name reads back as a different number of components (forged, merged or hidden)"
+  end.
+
+Definition expect_of_value (v : govalue) : expect :=
+  match v with
+  | GStr s => if valid_utf8 s then EStr s else ESkip
+  | GInt z => EInt z
+  | GNil => ESkip
+  | GOther _ m => match m with [] => ESkip | _ => EDer m end
+  end.
+Definition want_of_rdns (rdns : list (list atv)) : list (list (list N * expect)) :=
+  map (map (fun a : atv => (fst a, expect_of_value (snd a)))) rdns.
+
+Definition want_of_name (a : arg) : option (list (list (list N * expect))) :=
+  match arg_Z (arg_nth 0 a) with
+  | 0%Z =>
+      Some (map (fun r => map (fun x =>
+                   (oid_of_arg (arg_nth 0 x),
+                    let p := arg_bytes (arg_nth 2 x) in
+                    if arg_bool (arg_nth 1 x) then EDer p
+                    else if valid_utf8 p then EStr p else ESkip)) (arg_list r))
+                (arg_list (arg_nth 1 a)))
+  | _ => None
+  end.
+
+(* [strict = false] (FromRawDN called on arbitrary bytes): when the library decoding the code
+   relies on refuses the bytes, they are not a name and FromRawDN's hex fallback is not judged.
+   [strict = true] (a certificate crypto/x509 accepted): the name must be printed readably. *)
+Definition judge_raw (strict : bool) (a : arg) (text : bytes) : arg :=
+  match want_of_name (arg_nth 2 a) with
+  | Some w =>
+      match parsed_of_arg (arg_nth 1 a) with
+      | None => if strict then judge w text else AL []
+      | Some _ => judge w text
+      end
+  | None => AL []
+  end.
+
+Definition first_bad (l : list arg) : arg :=
+  match filter (fun a => match a with AL [] => false | _ => true end) l with
+  | [] => AL []
+  | x :: _ => x
+  end.
+
+Definition check_C15 (op : bytes) (input impl : arg) : arg :=
+  if bytes_eqb op (bs "escape") then
+    let s := arg_bytes (arg_nth 0 input) in
+    if valid_utf8 s then
+      match parse_dn (bs "CN=" ++ arg_bytes impl) with
+      | Some [(t, PStr v)] =>
+          if bytes_eqb t (bs "CN") && bytes_eqb v s then AL []
+          else AS "escaped value reads back as a different value"
+      | Some _ => AS "escaped value reads back as something other than one string component"
+      | None => AS "escaped value is not a valid RFC 4514 string"
+      end
+    else AL []
+  else if bytes_eqb op (bs "dn") then
+    match impl with
+    | AL [AZ 0%Z; AB text] => judge (want_of_rdns (rdns_of_arg (arg_nth 0 input))) text
+    | _ => AS "rendering the name failed (panic)"
+    end
+  else if bytes_eqb op (bs "rawdn") then
+    match impl with
+    | AL [AZ 0%Z; AB text] => judge_raw false input text
+    | _ => AS "rendering the name failed (panic)"
+    end
+  else if bytes_eqb op (bs "cert") then
+    match impl with
+    | AL [AZ 0%Z; AL [AB subj; AB iss]] =>
+        first_bad [judge_raw true (arg_nth 1 input) subj; judge_raw true (arg_nth 2 input) iss]
+    | AL [AZ 2%Z] => AS "inspection panicked"
+    | _ => AL []
+    end
+  else AL [].
